@@ -1270,6 +1270,12 @@ class Interp:
             raise PyRaise(AttributeError, (name,))  # terms stand for plain int / float / bool values
         if isinstance(obj, str) and self.lib.str_method(name, probe=True) is not None and not self.lib.native_str_ok(name):
             return BoundMethod(SStr.lit(obj), self.lib.str_method(name))
+        if isinstance(obj, set) and name in ("add", "discard", "update"):
+            def _set_op(it, st, *a):
+                # Python set semantics on model objects: membership by identity / hash of the model object
+                getattr(st, name)(*[x if not isinstance(x, list) else tuple(x) for x in a])
+                return None
+            return BoundMethod(obj, Handler(_set_op, "set." + name))
         if isinstance(obj, (list, dict)):
             try:
                 return BoundMethod(obj, self.lib.container_method(type(obj), name))
